@@ -1130,6 +1130,46 @@ func ruleChunkPositive(c *Ctx, rule string) {
 		c.und(rule, key, fn.Pos(), "no loop of the form counter*size < n found, and no division by the size")
 		return
 	}
+	// only divisions by the chunk size itself: when some loop still multiplies its counter by the size,
+	// the divisor must be that value (a quotient by the number of threads is how the size is made)
+	if len(sizes) > 0 {
+		isSize := map[ssa.Value]bool{}
+		for _, sv := range sizes {
+			isSize[sv] = true
+			// the same variable read again (a captured or spilled size)
+			if u, ok := sv.(*ssa.UnOp); ok && u.Op == token.MUL {
+				isSize[u.X] = true
+				// captured by the producer's closure: the variable of the enclosing function
+				if fv, ok := u.X.(*ssa.FreeVar); ok && fv.Parent().Parent() != nil {
+					for _, b := range fv.Parent().Parent().Blocks {
+						for _, ins := range b.Instrs {
+							if mc, ok := ins.(*ssa.MakeClosure); ok && mc.Fn == ssa.Value(fv.Parent()) {
+								for i, bv := range mc.Bindings {
+									if i < len(fv.Parent().FreeVars) && fv.Parent().FreeVars[i] == fv {
+										isSize[bv] = true
+									}
+								}
+							}
+						}
+					}
+				}
+			}
+		}
+		var kept []*ssa.BinOp
+		for _, dv := range divs {
+			same := isSize[dv.Y]
+			if u, ok := dv.Y.(*ssa.UnOp); ok && u.Op == token.MUL && isSize[u.X] {
+				same = true
+			}
+			if fv, ok := dv.Y.(*ssa.FreeVar); ok {
+				_ = fv
+			}
+			if same {
+				kept = append(kept, dv)
+			}
+		}
+		divs = kept
+	}
 	for _, dv := range divs {
 		isLen := func(v ssa.Value) bool {
 			call, ok := v.(*ssa.Call)
